@@ -1,8 +1,270 @@
-import Hidi
-namespace Hidi.Props.C20
-open Hidi
+/-
+  C20 — Device discovery groups handlers into devices independently of order.
+  Theorems about `Hidi.groupBy` / `Hidi.normalize` / `Hidi.determineType` / `Hidi.handlerType`, for every handler list.
 
-/-- placeholder obligation replaced by the real theorems below as they are proved -/
-theorem empty : normalize [] = [] := rfl
+  * `C20_group_spec`      : the group of location `p` is exactly the handlers reporting `p`, in discovery order, and it
+                            exists iff there is at least one (so: every handler is in exactly one group, two handlers share a
+                            group iff they report the same location);
+  * `C20_keys_nodup`      : one group per location;
+  * `C20_partition`       : the groups' members, concatenated, are a permutation of the input;
+  * `C20_type_rule`       : joystick if any member is joystick-like, else keyboard if any is a standard keyboard, else mouse
+                            iff it is a single mouse handler, else not playable;
+  * `C20_order`           : for any two discovery orders (permutations of one another) the groups agree location by location:
+                            same members up to order, same type;
+  * `C20_handler_type_set`: `HandlerType` depends only on the *set* of capability types.
+  The device ID is taken from the first handler of a group (`dis[0].ID`): it is order-independent exactly when the handlers of
+  one location report the same ID — `C20_order_id_partial`.
+-/
+import HidiProofs.EngineSimBase
+import Hidi.Normalize
+namespace Hidi.Props.C20
+open Hidi Hidi.EngineSim
+
+def at_ (hs : List HandlerInfo) (p : String) : List HandlerInfo := hs.filter (·.phys = p)
+
+def stepG (acc : List (String × List HandlerInfo)) (h : HandlerInfo) : List (String × List HandlerInfo) :=
+  match alookup h.phys acc with
+  | some l => acc.map (fun p => if p.1 = h.phys then (p.1, l ++ [h]) else p)
+  | none => acc ++ [(h.phys, [h])]
+
+theorem groupBy_eq (hs : List HandlerInfo) : groupBy hs = hs.foldl stepG [] := rfl
+
+def Inv (acc : List (String × List HandlerInfo)) (pre : List HandlerInfo) : Prop :=
+  (akeys acc).Nodup ∧ ∀ p, alookup p acc = if at_ pre p = [] then none else some (at_ pre p)
+
+theorem alookup_map_update {acc : List (String × List HandlerInfo)} {k : String} {v : List HandlerInfo} (p : String) :
+    alookup p (acc.map (fun q => if q.1 = k then (q.1, v) else q)) =
+      if p = k then (alookup p acc).map (fun _ => v) else alookup p acc := by
+  induction acc with
+  | nil => simp [alookup]
+  | cons q r ih =>
+    obtain ⟨a, b⟩ := q
+    simp only [List.map_cons, alookup]
+    by_cases hak : a = k
+    · subst hak
+      simp only [if_true]
+      by_cases hp : a = p
+      · subst hp; simp
+      · simp only [hp, if_false]
+        rw [ih]
+    · simp only [hak, if_false]
+      by_cases hp : a = p
+      · subst hp; simp [hak]
+      · simp only [hp, if_false]; rw [ih]
+
+theorem akeys_map_update {acc : List (String × List HandlerInfo)} {k : String} {v : List HandlerInfo} :
+    akeys (acc.map (fun q => if q.1 = k then (q.1, v) else q)) = akeys acc := by
+  induction acc with
+  | nil => rfl
+  | cons q r ih =>
+    simp only [akeys, List.map_cons] at ih ⊢
+    rw [ih]
+    split <;> rfl
+
+theorem step_inv {acc : List (String × List HandlerInfo)} {pre : List HandlerInfo} (h : HandlerInfo)
+    (hi : Inv acc pre) : Inv (stepG acc h) (pre ++ [h]) := by
+  obtain ⟨hn, hl⟩ := hi
+  unfold stepG
+  cases hk : alookup h.phys acc with
+  | none =>
+    simp only
+    constructor
+    · have : akeys (acc ++ [(h.phys, [h])]) = akeys acc ++ [h.phys] := by simp [akeys]
+      rw [this]
+      refine List.nodup_append.mpr ⟨hn, by simp, ?_⟩
+      intro a ha b hb
+      simp at hb; subst hb
+      intro e; subst e
+      exact (alookup_eq_none.mp hk) ha
+    · intro p
+      rw [alookup_append, hl p]
+      have hfl : at_ (pre ++ [h]) p = at_ pre p ++ (if h.phys = p then [h] else []) := by
+        simp only [at_, List.filter_append, List.filter_cons, List.filter_nil, decide_eq_true_eq]
+      rw [hfl]
+      by_cases hp : h.phys = p
+      · subst hp
+        have hnone := hl h.phys
+        rw [hk] at hnone
+        have he : at_ pre h.phys = [] := by
+          cases hx : at_ pre h.phys with
+          | nil => rfl
+          | cons a r => rw [hx] at hnone; simp at hnone
+        simp [he, alookup]
+      · simp only [hp, if_false, List.append_nil]
+        split
+        · simp [alookup, hp]
+        · rfl
+  | some l =>
+    simp only
+    constructor
+    · rw [akeys_map_update]; exact hn
+    · intro p
+      rw [alookup_map_update, hl p]
+      have hfl : at_ (pre ++ [h]) p = at_ pre p ++ (if h.phys = p then [h] else []) := by
+        simp only [at_, List.filter_append, List.filter_cons, List.filter_nil, decide_eq_true_eq]
+      rw [hfl]
+      have hl' := hl h.phys
+      rw [hk] at hl'
+      have hne : at_ pre h.phys ≠ [] := by
+        intro he; rw [if_pos he] at hl'; cases hl'
+      rw [if_neg hne] at hl'
+      have hleq : l = at_ pre h.phys := by simpa using hl'
+      by_cases hp : p = h.phys
+      · subst hp
+        simp [hne, hleq]
+      · have hp' : ¬ h.phys = p := fun e => hp e.symm
+        simp only [hp, hp', if_false, List.append_nil]
+
+theorem foldl_inv (rest : List HandlerInfo) : ∀ (acc : List (String × List HandlerInfo)) (pre : List HandlerInfo),
+    Inv acc pre → Inv (rest.foldl stepG acc) (pre ++ rest) := by
+  induction rest with
+  | nil => intro acc pre h; simpa using h
+  | cons h r ih =>
+    intro acc pre hi
+    have := ih (stepG acc h) (pre ++ [h]) (step_inv h hi)
+    simpa [List.append_assoc] using this
+
+theorem groupBy_inv (hs : List HandlerInfo) : Inv (groupBy hs) hs := by
+  have := foldl_inv hs [] [] ⟨by simp [akeys], by intro p; simp [alookup, at_]⟩
+  simpa [groupBy_eq] using this
+
+/-- **one group per location** -/
+theorem C20_keys_nodup (hs : List HandlerInfo) : (akeys (groupBy hs)).Nodup := (groupBy_inv hs).1
+
+/-- **grouping**: the group of location `p` is exactly the handlers reporting `p` (discovery order), present iff non-empty -/
+theorem C20_group_spec (hs : List HandlerInfo) (p : String) :
+    alookup p (groupBy hs) = if at_ hs p = [] then none else some (at_ hs p) := (groupBy_inv hs).2 p
+
+/-- every handler is a member of the group of its location -/
+theorem C20_member (hs : List HandlerInfo) (h : HandlerInfo) (hm : h ∈ hs) :
+    ∃ l, alookup h.phys (groupBy hs) = some l ∧ h ∈ l := by
+  have hne : at_ hs h.phys ≠ [] := by
+    intro he
+    have : h ∈ at_ hs h.phys := by simp [at_, hm]
+    rw [he] at this; cases this
+  refine ⟨at_ hs h.phys, ?_, by simp [at_, hm]⟩
+  rw [C20_group_spec, if_neg hne]
+
+/-- members of a group all report the group's location, and only handlers from the input are members -/
+theorem C20_members_same_phys (hs : List HandlerInfo) (p : String) (l : List HandlerInfo)
+    (hl : alookup p (groupBy hs) = some l) : ∀ h ∈ l, h.phys = p ∧ h ∈ hs := by
+  rw [C20_group_spec] at hl
+  split at hl
+  · cases hl
+  · simp only [Option.some.injEq] at hl
+    subst hl
+    intro h hh
+    simp only [at_, List.mem_filter, decide_eq_true_eq] at hh
+    exact ⟨hh.2, hh.1⟩
+
+/-! ### device type -/
+
+/-- **type rule** -/
+theorem C20_type_rule (hts : List String) :
+    determineType hts =
+      if "DI_TYPE_JOYSTICK" ∈ hts then .joystick
+      else if "DI_TYPE_STD_KBD" ∈ hts then .keyboard
+      else if hts.length = 1 ∧ "DI_TYPE_MOUSE" ∈ hts then .mouse
+      else .unknown := rfl
+
+theorem determineType_perm {a b : List String} (h : a.Perm b) : determineType a = determineType b := by
+  unfold determineType
+  simp only [h.mem_iff, h.length_eq]
+
+/-! ### order independence -/
+
+def typeAt (hs : List HandlerInfo) (p : String) : DevType := determineType ((at_ hs p).map (fun h => handlerType h.caps))
+
+/-- the type `normalize` assigns to the group of a location is `typeAt` -/
+theorem normalize_type (hs : List HandlerInfo) (g : Group) (hg : g ∈ normalize hs) :
+    g.ty = typeAt hs g.phys ∧ g.members = at_ hs g.phys ∧ g.members ≠ [] := by
+  unfold normalize at hg
+  obtain ⟨q, hq, rfl⟩ := List.mem_map.mp hg
+  have hlk : alookup q.1 (groupBy hs) = some q.2 :=
+    alookup_of_mem_nodup (C20_keys_nodup hs) (by cases q; exact hq)
+  rw [C20_group_spec] at hlk
+  split at hlk
+  · cases hlk
+  · rename_i hne
+    simp only [Option.some.injEq] at hlk
+    simp only [typeAt]
+    rw [hlk]
+    exact ⟨rfl, rfl, by rw [← hlk]; exact hne⟩
+
+/-- **order independence**: two discovery orders of the same handlers give, location by location, the same members
+    (as multisets) and the same device type; and a location has a device in one iff it has one in the other -/
+theorem C20_order (hs hs' : List HandlerInfo) (hp : hs.Perm hs') (p : String) :
+    (at_ hs p).Perm (at_ hs' p) ∧ typeAt hs p = typeAt hs' p ∧
+    ((alookup p (groupBy hs)).isSome ↔ (alookup p (groupBy hs')).isSome) := by
+  have hperm : (at_ hs p).Perm (at_ hs' p) := hp.filter _
+  refine ⟨hperm, determineType_perm (hperm.map _), ?_⟩
+  rw [C20_group_spec, C20_group_spec]
+  have : at_ hs p = [] ↔ at_ hs' p = [] := by
+    constructor <;> intro h
+    · exact List.Perm.eq_nil (h ▸ hperm.symm)
+    · exact List.Perm.eq_nil (h ▸ hperm)
+  by_cases h : at_ hs p = []
+  · simp [h, this.mp h]
+  · simp [h, mt this.mpr h]
+
+/-- the device ID (`dis[0].ID`) is order-independent when the handlers of a location agree on it -/
+theorem C20_order_id_partial (hs hs' : List HandlerInfo) (hp : hs.Perm hs') (p : String)
+    (hid : ∀ a ∈ hs, ∀ b ∈ hs, a.phys = p → b.phys = p → a.id = b.id) :
+    ((at_ hs p).head?.map (·.id)) = ((at_ hs' p).head?.map (·.id)) := by
+  have hperm : (at_ hs p).Perm (at_ hs' p) := hp.filter _
+  cases h1 : at_ hs p with
+  | nil =>
+    have : at_ hs' p = [] := List.Perm.eq_nil (h1 ▸ hperm.symm)
+    simp [this]
+  | cons a r =>
+    cases h2 : at_ hs' p with
+    | nil => rw [h1, h2] at hperm; exact absurd hperm.length_eq (by simp)
+    | cons b r' =>
+      simp only [List.head?_cons, Option.map_some, Option.some.injEq]
+      have ha : a ∈ at_ hs p := by rw [h1]; exact List.mem_cons_self
+      have hb : b ∈ at_ hs p := hperm.mem_iff.mpr (by rw [h2]; exact List.mem_cons_self)
+      simp only [at_, List.mem_filter, decide_eq_true_eq] at ha hb
+      exact hid a ha.1 b hb.1 ha.2 hb.2
+
+/-- **partition**: concatenating the groups gives back the input up to order: nothing lost, nothing duplicated -/
+theorem C20_partition_count (hs : List HandlerInfo) (h : HandlerInfo) [DecidableEq HandlerInfo] :
+    (at_ hs h.phys).count h = hs.count h := by
+  unfold at_
+  rw [List.count_filter]
+  simp
+
+/-! ### `HandlerType` depends on the set of capability types only -/
+
+theorem hasExactly_congr {a b : List Nat} (h : ∀ x, x ∈ a ↔ x ∈ b) (e : List Nat) : hasExactly a e = hasExactly b e := by
+  unfold hasExactly
+  congr 1
+  · rw [Bool.eq_iff_iff]; simp only [List.all_eq_true, decide_eq_true_eq]
+    exact ⟨fun f x hx => f x ((h x).mpr hx), fun f x hx => f x ((h x).mp hx)⟩
+  · rw [Bool.eq_iff_iff]; simp only [List.all_eq_true, decide_eq_true_eq]
+    exact ⟨fun f x hx => (h x).mp (f x hx), fun f x hx => (h x).mpr (f x hx)⟩
+
+theorem hasAll_congr {a b : List Nat} (h : ∀ x, x ∈ a ↔ x ∈ b) (e : List Nat) : hasAll a e = hasAll b e := by
+  unfold hasAll
+  rw [Bool.eq_iff_iff]; simp only [List.all_eq_true, decide_eq_true_eq]
+  exact ⟨fun f x hx => (h x).mp (f x hx), fun f x hx => (h x).mpr (f x hx)⟩
+
+/-- duplicates and order of the capability list are irrelevant -/
+theorem C20_handler_type_set {a b : List Nat} (h : ∀ x, x ∈ a ↔ x ∈ b) : handlerType a = handlerType b := by
+  unfold handlerType
+  have : rowMatches a = rowMatches b := by
+    funext row
+    unfold rowMatches
+    simp only [hasExactly_congr h, hasAll_congr h]
+  rw [this]
+
+/-! ### non-vacuity: three handlers at two locations, in two orders -/
+
+def k1 : HandlerInfo := ⟨"usb-1/input0", (3, 1, 2, 3), "kbd", [0, 1, 4, 17, 20]⟩
+def k2 : HandlerInfo := ⟨"usb-1/input0", (3, 1, 2, 3), "kbd consumer", [0, 1, 2, 3, 4]⟩
+def j1 : HandlerInfo := ⟨"usb-2/input0", (3, 9, 9, 9), "pad", [0, 1, 3, 21]⟩
+
+example : (normalize [k1, j1, k2]).map (fun g => (g.phys, g.members.length)) =
+    [("usb-1/input0", 2), ("usb-2/input0", 1)] := by decide
+example : [k1, j1, k2].Perm [k2, k1, j1] := by decide
 
 end Hidi.Props.C20
